@@ -441,3 +441,52 @@ def proc_sliding_stage(res, rng, vh, scen, quick=True):
     res.cov["evaluations"] += len(mine)
     res.cov["trace_events"] += nlines
     res.notes.append("processing-time sliding: %d free-running real-time scenarios (%d with an idle period), monitor TraceProcSliding" % (len(mine), sum(1 for m in mine.values() if m["timing"])))
+
+
+def proc_session_stage(res, rng, vh, scen, quick=True):
+    """Processing-time SESSION window (the default time characteristic; outside the letter of C10, same contract with arrival times):
+    model check ProcSession, then free-running real-time inputs validated by TraceProcSession: every row in exactly one session of its
+    key, window_start / window_end = first arrival / last arrival + timeout, no session before its timeout ran out, rows certainly
+    less than the timeout apart share a session; (timing scenarios) gaps above 1.5 x timeout split, results follow promptly."""
+    cfg = ('SPECIFICATION Spec\nCONSTANTS Timeout = 2 Keys = {"a", "b"} MaxNow = %d MaxEv = %d Emit = FALSE\n'
+           "INVARIANTS ExactlyOnce OwnKey Bounds NoSplitBelowTimeout Timely\nVIEW View\nCHECK_DEADLOCK FALSE\n" % (6 if quick else 8, 4 if quick else 5))
+    r = vlib.tlc(SPEC, "ProcSession", cfg, workers=8, timeout=1500)
+    res.add_model("ProcSession", r, dict(timeout=2, keys=2, kind="procsession"))
+    if not r["ok"]:
+        if r["violated"]:
+            res.notes.append("MODEL-COUNTEREXAMPLE procsession: invariant %s fails in the model; decided by the replay" % r["violated"])
+        else:
+            raise vlib.Inconclusive("TLC failed on ProcSession:\n" + r.get("error", r["out"][-2000:]))
+    sc_path = os.path.join(vlib.scratch(), "pss_scen.ndjson")
+    tr_path = os.path.join(vlib.scratch(), "pss_trace.ndjson")
+    base = max(scen) if scen else 0
+    mine = {}
+    with open(sc_path, "w") as f:
+        for k in range(16 if quick else 120):
+            base += 1
+            T = rng.choice([100, 160, 200])
+            steps, i = [], 0
+            for _ in range(rng.choice([8, 12, 16])):
+                i += 1
+                steps.append({"a": "add", "id": i})
+                steps.append({"a": "sleep", "gap": rng.choice([2000, 20000, T * 500, T * 900, T * 1700, T * 2500])})
+            sc = {"tr": base, "kind": "session", "size_ms": T, "groups": rng.choice([1, 2, 3]), "free": True, "timing": k % 3 == 0, "steps": steps}
+            mine[base] = sc
+            f.write(json.dumps(sc) + "\n")
+    rc, out = vlib.sh([vh, "proc", "-scen", sc_path, "-out", tr_path, "-par", "8"], 1500)
+    if rc != 0:
+        raise vlib.Inconclusive("proc driver failed (session):\n" + out[-3000:])
+    inc = [l for l in out.splitlines() if l.startswith("INCONCLUSIVE")]
+    if len(inc) > max(2, len(mine) // 10):
+        raise vlib.Inconclusive("%d of %d processing-time session scenarios inconclusive, e.g. %s" % (len(inc), len(mine), inc[0]))
+    rej, _, nlines = vlib.validate(SPEC, "TraceProcSession", tr_path, set())
+    seen = set()
+    for tr, line, code in rej:
+        if tr in seen:
+            continue
+        seen.add(tr)
+        res.violation("processing-time session: %s at trace line %d of scenario %d" % (code, line, tr), mine.get(tr))
+    res.cov["traces_validated_against_impl"] += len(mine) - len(inc)
+    res.cov["evaluations"] += len(mine)
+    res.cov["trace_events"] += nlines
+    res.notes.append("processing-time session: %d free-running real-time scenarios, monitor TraceProcSession" % len(mine))
